@@ -200,3 +200,77 @@ class Boot:
                 and _trace[3][0] == "boot_packet" and _trace[3][2] == 1 and _trace[3][3] == local_n_blocks - 1
                 and _trace[4][0] == "boot_packet" and _trace[4][2] == 5 and _trace[4][3] == 1
                 and _trace[5][0] == "close")
+
+
+# ---- the struct the configuration area is packed from (rig/machine_control/struct_file.py) -----------------
+from rig.machine_control.struct_file import Struct, StructField
+
+
+def pack_four(size, o1, v1, o2, v2, o3, v3, o4, v4):
+    """a struct with one field of each scalar pack character used by the struct files"""
+    s = Struct(b"sv", size, 0)
+    s[b"a"] = StructField(b"I", o1, b"%08x", v1, 1)
+    s[b"b"] = StructField(b"H", o2, b"%04x", v2, 1)
+    s[b"c"] = StructField(b"B", o3, b"%02x", v3, 1)
+    s[b"d"] = StructField(b"b", o4, b"%d", v4, 1)
+    return s.pack()
+
+
+def update_and_pack(size, o1, v1, o2, v2, n1, n2):
+    """defaults overridden through update_default_values, then packed"""
+    s = Struct(b"sv", size, 0)
+    s[b"a"] = StructField(b"I", o1, b"%08x", v1, 1)
+    s[b"b"] = StructField(b"H", o2, b"%04x", v2, 1)
+    s.update_default_values(a=n1)
+    first = s.pack()
+    s.update_default_values(b=n2, a=v1)
+    return (first, s.pack(), s[b"a"].default, s[b"b"].default)
+
+
+def le(b, off, n):
+    return sum(select(b, off + i) * 256 ** i for i in range(n))
+
+
+@contract("specs/c20_boot.py::pack_four")
+class PackFour:
+    properties = ("C20",)
+    params = dict(size=TInt(8, 4096), o1=TInt(0, None), v1=U32, o2=TInt(0, None), v2=TInt(0, 65535),
+                  o3=TInt(0, None), v3=TInt(0, 255), o4=TInt(0, None), v4=TInt(-128, 127))
+    result = BYTES
+    assumptions = ["Struct.pack is verified for structs holding one field of each scalar pack character (I, H, B, b) at arbitrary disjoint offsets with arbitrary in-range values; the generalisation to any number of fields is the same loop body and is not proved separately"]
+
+    def native(size, o1, v1, o2, v2, o3, v3, o4, v4):
+        return pack_four(size, o1, v1, o2, v2, o3, v3, o4, v4)
+
+    def requires(size, o1, o2, o3, o4):
+        # fields inside the struct and not overlapping (as in a struct file): a < b < c < d
+        return o1 + 4 <= o2 and o2 + 2 <= o3 and o3 + 1 <= o4 and o4 + 1 <= size
+
+    def ensures_size(size, result):
+        return seq_len(result) == size
+
+    def ensures_every_field_holds_its_value_little_endian(o1, v1, o2, v2, o3, v3, o4, v4, result):
+        return (le(result, o1, 4) == v1 and le(result, o2, 2) == v2 and select(result, o3) == v3
+                and select(result, o4) == v4 % 256)
+
+    def ensures_everything_else_is_zero(size, o1, o2, o3, o4, result):
+        return forall_range(0, size, lambda i: implies(not (o1 <= i < o1 + 4 or o2 <= i < o2 + 2 or i == o3 or i == o4),
+                                                       select(result, i) == 0))
+
+
+@contract("specs/c20_boot.py::update_and_pack")
+class UpdateAndPack:
+    properties = ("C20",)
+    params = dict(size=TInt(8, 4096), o1=TInt(0, None), v1=U32, o2=TInt(0, None), v2=TInt(0, 65535), n1=U32, n2=TInt(0, 65535))
+
+    def native(size, o1, v1, o2, v2, n1, n2):
+        return update_and_pack(size, o1, v1, o2, v2, n1, n2)
+
+    def requires(size, o1, o2):
+        return o1 + 4 <= o2 and o2 + 2 <= size
+
+    def ensures_an_override_replaces_the_default_whatever_its_value(o1, v2, o2, n1, result):
+        return le(result[0], o1, 4) == n1 and le(result[0], o2, 2) == v2
+
+    def ensures_later_overrides_win_and_are_recorded(o1, v1, o2, n2, result):
+        return le(result[1], o1, 4) == v1 and le(result[1], o2, 2) == n2 and result[2] == v1 and result[3] == n2
